@@ -1,6 +1,7 @@
 package chunkenc
 
 import (
+	"time"
 	"context"
 	"fmt"
 	"math"
@@ -881,7 +882,7 @@ func (c hsDBCfg) options() *tsdb.Options {
 	}
 	o.EnableHistogramSTEncoding = c.HistST
 	o.HeadChunksWriteQueueSize = 0
-	o.BlockReloadInterval = 0
+	o.BlockReloadInterval = 24 * time.Hour // no background reloads: the harness owns every reload (0 is clamped to one second)
 	o.StripeSize = 16
 	return o
 }
